@@ -4,6 +4,7 @@ package main
 
 import (
 	"fmt"
+	"math/big"
 
 	"github.com/onflow/crypto"
 	"github.com/onflow/crypto/hash"
@@ -140,6 +141,68 @@ func blsSections(t *T) {
 		sv1, _ := crypto.SPOCKVerify(pp[0], p1, pp[1], p2)
 		sv2, _ := crypto.SPOCKVerify(pp[0], p1, pp[1], many[1])
 		t.line("bls-agg", "spock", k, fmt.Sprintf("%v/%v", sv1, sv2))
+	}
+	// algebraic corners: duplicates (doubling), opposite pairs (cancellation), identity operands
+	negKey := func(sk crypto.PrivateKey) crypto.PrivateKey {
+		// r - k, from the scalar bytes
+		rOrder, _ := new(big.Int).SetString("73eda753299d7d483339d80809a1d80553bda402fffe5bfeffffffff00000001", 16)
+		k := new(big.Int).SetBytes(sk.Encode())
+		nk, err := crypto.DecodePrivateKey(blsAlg, new(big.Int).Sub(rOrder, k).FillBytes(make([]byte, 32)))
+		if err != nil {
+			return sk
+		}
+		return nk
+	}
+	inf := make([]byte, 48)
+	inf[0] = 0xC0
+	for i := 0; i < rounds; i++ {
+		a, b := sks[r.IntN(len(sks))], sks[r.IntN(len(sks))]
+		msg := rb(r, 12)
+		sa, _ := a.Sign(msg, h)
+		sb, _ := b.Sign(msg, h)
+		sna, _ := negKey(a).Sign(msg, h)
+		lists := map[string][]crypto.Signature{
+			"s,s": {sa, sa}, "s,s,t": {sa, sa, sb}, "t,s,s": {sb, sa, sa}, "s,-s": {sa, sna}, "s,-s,t": {sa, sna, sb},
+			"O,s": {inf, sa}, "s,O": {sa, inf}, "O,O": {inf, inf}, "s,t,s,t": {sa, sb, sa, sb}, "s,s,s,s,s": {sa, sa, sa, sa, sa},
+		}
+		for _, name := range []string{"s,s", "s,s,t", "t,s,s", "s,-s", "s,-s,t", "O,s", "s,O", "O,O", "s,t,s,t", "s,s,s,s,s"} {
+			agg, err := crypto.AggregateBLSSignatures(lists[name])
+			t.line("bls-corner", "agg-sig/"+name, dg(msg), hx(agg)+"/"+errClass(err))
+		}
+		pa, pb, pna := a.PublicKey(), b.PublicKey(), negKey(a).PublicKey()
+		id := crypto.IdentityBLSPublicKey()
+		pkl := map[string][]crypto.PublicKey{"p,p": {pa, pa}, "p,p,q": {pa, pa, pb}, "p,-p": {pa, pna}, "p,-p,q": {pa, pna, pb}, "O,p": {id, pa}, "p,O,q": {pa, id, pb}, "p,q,p,q": {pa, pb, pa, pb}}
+		for _, name := range []string{"p,p", "p,p,q", "p,-p", "p,-p,q", "O,p", "p,O,q", "p,q,p,q"} {
+			agg, err := crypto.AggregateBLSPublicKeys(pkl[name])
+			out := errClass(err)
+			if err == nil {
+				out += "/" + hx(agg.Encode())
+			}
+			t.line("bls-corner", "agg-pk/"+name, dg(pa.Encode()), out)
+		}
+		rem := []struct {
+			name string
+			x    crypto.PublicKey
+			ys   []crypto.PublicKey
+		}{{"p-[p]", pa, []crypto.PublicKey{pa}}, {"p-[-p]", pa, []crypto.PublicKey{pna}}, {"-p-[p]", pna, []crypto.PublicKey{pa}}, {"p-[q,q]", pa, []crypto.PublicKey{pb, pb}}, {"O-[p]", id, []crypto.PublicKey{pa}}, {"p-[O]", pa, []crypto.PublicKey{id}}}
+		for _, c := range rem {
+			res, err := crypto.RemoveBLSPublicKeys(c.x, c.ys)
+			out := errClass(err)
+			if err == nil {
+				out += "/" + hx(res.Encode())
+			}
+			t.line("bls-corner", "remove/"+c.name, dg(pa.Encode()), out)
+		}
+		// the same (key, message) pair listed twice, and twice the same key on two messages
+		m2 := rb(r, 9)
+		sa2, _ := a.Sign(m2, h)
+		dup, _ := crypto.AggregateBLSSignatures([]crypto.Signature{sa, sa, sb})
+		ok1, e1 := crypto.VerifyBLSSignatureManyMessages([]crypto.PublicKey{pa, pa, pb}, dup, [][]byte{msg, msg, msg}, []hash.Hasher{h, h, h})
+		two, _ := crypto.AggregateBLSSignatures([]crypto.Signature{sa, sa2, sa, sb})
+		ok2, e2 := crypto.VerifyBLSSignatureManyMessages([]crypto.PublicKey{pa, pa, pa, pb}, two, [][]byte{msg, m2, msg, msg}, []hash.Hasher{h, h, h, h})
+		ok3, e3 := crypto.VerifyBLSSignatureOneMessage([]crypto.PublicKey{pa, pa, pb}, dup, msg, h)
+		res, e4 := crypto.BatchVerifyBLSSignaturesOneMessage([]crypto.PublicKey{pa, pa, pb, pa}, []crypto.Signature{sa, sa, sb, sb}, msg, h)
+		t.line("bls-corner", "verify-dups", dg(msg), fmt.Sprintf("%v/%s/%v/%s/%v/%s/%v/%s", ok1, errClass(e1), ok2, errClass(e2), ok3, errClass(e3), res, errClass(e4)))
 	}
 	// threshold
 	for i := 0; i < rounds; i++ {
